@@ -260,4 +260,66 @@ theorem altEnc_encSeg (c : List Nat) (h : ∀ b ∈ c, b < 256) : AltEnc c (encS
       simp [inSegSet, inPathSet] at hs
       simp [rawOk]; omega
 
+/-! ### histories -/
+
+/-- two histories: the same operations, addressed through URI strings that decode alike -/
+inductive SameHistory : List (Op × List Nat) → List (Op × List Nat) → Prop
+  | nil : SameHistory [] []
+  | cons {op s1 s2 h1 h2} : strToPath s1 = strToPath s2 → SameHistory h1 h2 →
+      SameHistory ((op, s1) :: h1) ((op, s2) :: h2)
+
+theorem decodeHistory_same {h1 h2 : List (Op × List Nat)} (h : SameHistory h1 h2) :
+    decodeHistory h1 = decodeHistory h2 := by
+  induction h with
+  | nil => rfl
+  | cons hs _ ih => simp only [decodeHistory, hs, ih]
+
+/-- two histories whose URIs are alternative percent-encodings of the same normalised paths -/
+inductive AltHistory : List (Op × List Nat) → List (Op × List Nat) → Prop
+  | nil : AltHistory [] []
+  | cons {op cs us1 us2 h1 h2} : Normal cs → All2 AltEnc cs us1 → All2 AltEnc cs us2 → AltHistory h1 h2 →
+      AltHistory ((op, filePrefix ++ joinPath us1) :: h1) ((op, filePrefix ++ joinPath us2) :: h2)
+
+theorem lookup_filter_ne (k : Key) (i : Nat) (l : List (Key × Nat)) (h : lookup k l = some i) :
+    lookup k (l.filter fun e => e.2 != i) = none ∨
+      ∃ j, j ≠ i ∧ lookup k (l.filter fun e => e.2 != i) = some j := by
+  induction l with
+  | nil => simp [lookup] at h
+  | cons e rest ih =>
+    obtain ⟨k0, i0⟩ := e
+    by_cases hi : i0 = i
+    · subst hi
+      simp only [List.filter_cons, bne_self_eq_false, Bool.false_eq_true, if_false]
+      by_cases hk : k = k0
+      · -- the entry found is dropped; anything found later has another id or nothing is found
+        cases hl : lookup k (rest.filter fun e => e.2 != i0) with
+        | none => exact Or.inl rfl
+        | some j =>
+          refine Or.inr ⟨j, ?_, rfl⟩
+          intro hj; subst hj
+          -- an entry with id j cannot survive the filter
+          have : ∀ (l : List (Key × Nat)), lookup k (l.filter fun e => e.2 != j) ≠ some j := by
+            intro l
+            induction l with
+            | nil => simp [lookup]
+            | cons e' r' ih' =>
+              obtain ⟨k1, i1⟩ := e'
+              by_cases h1 : i1 = j
+              · subst h1; simpa using ih'
+              · have : (i1 != j) = true := by simpa using h1
+                simp only [List.filter_cons, this, if_true, lookup]
+                split
+                · intro hc; cases hc; exact h1 rfl
+                · exact ih'
+          exact this rest hl
+      · simp only [lookup, hk, if_false] at h
+        exact ih h
+    · have hb : (i0 != i) = true := by simpa using hi
+      simp only [List.filter_cons, hb, if_true, lookup]
+      by_cases hk : k = k0
+      · simp only [lookup, hk, if_true] at h
+        cases h; exact absurd rfl hi
+      · simp only [lookup, hk, if_false] at h ⊢
+        exact ih h
+
 end Uri
